@@ -153,7 +153,7 @@ class Printer:
         if mapping == '@nondet':
             c = self.ctype(node['type'])
             return self.nondet(c)
-        if '{' not in mapping:
+        if '{' not in mapping and '(' not in mapping:
             a = ([selfexpr] if selfexpr is not None else []) + [self.arg(x) for x in args]
             return f'{mapping}({", ".join(a)})'
 
